@@ -61,6 +61,9 @@ func c06Cases(tier string) []SchedCase {
 	add(`{t{kidReq{id} name}}`, planOf("t.kidReq", "adderr", "t.name", "error"))
 	add(`{tReq{kidReq{id} req name}}`, planOf("tReq.kidReq", "adderr", "tReq.req", "error"))
 	add(`{ts{kidReq{id}}}`, planOf("ts[0].kidReq", "adderr", "ts[1].kidReq", "adderr"))
+	// two panics presented by gqlgen's own DefaultRecover (no recover function configured)
+	out = append(out, SchedCase{Case: Case{Op: Op{Text: `{t{name req}}`}, Plan: planOf("t.name", "panic", "t.req", "panic"), Yield: true, DefaultRecover: true}, Name: "{t{name req}} | both panic, default recover"})
+	out = append(out, SchedCase{Case: Case{Op: Op{Text: `{ts{name}}`}, Plan: planOf("ts[0].name", "panic", "ts[1].name", "panic"), Yield: true, DefaultRecover: true}, Name: "{ts{name}} | both elements panic, default recover"})
 	// mirrored paths: an error at one alias, a silent null at the other
 	add(`{x:t{kidReq{id}} y:t{kidReq{id}}}`, planOf("x.kidReq", "error", "y.kidReq", "null"))
 	add(`{x:tReq{id} y:tReq{id}}`, planOf("x", "error", "y", "null"))
@@ -116,6 +119,12 @@ func c05Cases(tier string) []SchedCase {
 	for _, tr := range []string{"post", "sse", "mixed", "ws"} {
 		out = append(out, SchedCase{Case: Case{Op: Op{Text: `{t{boom name}}`}, Plan: planOf("marshal:boom@t", "panic"), Yield: true, Cancel: true}, Transport: tr, Name: tr + " marshal panic", Bound: &zero})
 		out = append(out, SchedCase{Case: Case{Op: Op{Text: `{t{id ... @defer{boom}}}`}, Plan: planOf("marshal:boom@t", "panic"), Yield: true, Cancel: true}, Transport: tr, Name: tr + " marshal panic in deferred payload", Bound: &zero})
+	}
+	// a failing non-deferred non-null field next to a deferred fragment: the object is null,
+	// its groups are not started - and nothing may wait for them
+	for _, tr := range []string{"", "sse", "mixed", "ws"} {
+		out = append(out, SchedCase{Case: Case{Op: Op{Text: `{t{kidReq{id} ... @defer{name}}}`}, Plan: planOf("t.kidReq", "error"), Yield: true, Cancel: false}, Transport: tr, Name: tr + " failing sibling of a deferred fragment", Bound: &zero})
+		out = append(out, SchedCase{Case: Case{Op: Op{Text: `{ts{req ... @defer{name}}}`}, Plan: planOf("ts[1].req", "error"), Yield: true, Cancel: false}, Transport: tr, Name: tr + " failing list element with a deferred fragment", Bound: &zero})
 	}
 	// two operations in flight on one websocket connection that the SERVER then closes
 	out = append(out, SchedCase{Case: Case{Op: Op{Text: `{t{name}}`}, Yield: true, Cancel: true}, Transport: "ws2", Name: "ws2 {t{name}} | two operations, server-side close", Bound: &one})
@@ -190,7 +199,11 @@ type schedInst struct {
 
 func (si *schedInst) Body() {
 	if si.sc.Transport == "" {
-		si.Inst.Body()
+		if si.C.DefaultRecover {
+			silenced(si.Inst.Body) // DefaultRecover prints a stack trace per panic
+		} else {
+			si.Inst.Body()
+		}
 		return
 	}
 	in := si.Inst
